@@ -634,7 +634,7 @@ def run(tier):
            "kernels": len({r["id"].split("#")[0] for r in results}),
            "status_counts": stat,
            "valuations": sum(len(r["case"]["vals"]) for r in accepted),
-           "program_executions": sum(_cost(r["case"]) for r in accepted),
+           "program_executions_upper_bound": sum(_cost(r["case"]) for r in accepted),
            "skipped_valuations": skipstat,
            "failing_cases": len(failing),
            "harness_generation": harness,
@@ -661,6 +661,10 @@ def run(tier):
         "changes a passive argument, or is not a homogeneous linear map of the chosen active "
         "variables (checked by TLC on x=0 and x=(1,2,3,..)) are discarded and counted",
         "local active variables are temporaries: the matrices range over active dummy arguments",
+        "columns are computed for the active locations either program reads or writes (FortranSem "
+        "access tracking on the zero input); the harness checks on the exported programs that no "
+        "active name occurs in a subscript, loop bound or condition (else every location is a "
+        "column), so both matrices are the identity elsewhere",
         "generic (api=None) PSyAD only; LFRic kernels and their harness are outside this check",
         "exporter pv.export and the Fortran reader/writer round trip of the adjoint text are trusted "
         "(fail closed: unsupported)"])
